@@ -135,6 +135,15 @@ def dimforms_for(d_a, d_b, with_ndarray=False):
     return out
 
 
+def _dedupe(gen):
+    seen = set()
+    for c in gen:
+        key = repr(sorted(c.items(), key=lambda t: t[0]))
+        if key not in seen:
+            seen.add(key)
+            yield c
+
+
 def toq(name: str):
     if name == "schmidt_decomposition":
         from toqito.state_ops import schmidt_decomposition
@@ -604,9 +613,10 @@ def lu_cases(tier, seed):
     for (d_a, d_b) in local_dims(tier):
         for ua, ub in unitary_pairs(d_a, d_b):
             inco = monomial(d_a, ua) and monomial(d_b, ub)
-            base = {"dA": d_a, "dB": d_b, "ua": ua, "ub": ub, "nts": list(totals(tier))}
-            for fn in INV_OP_FNS + (["concurrence", "entanglement_of_formation"] if (d_a, d_b) == (2, 2) else []) + (["l1_norm_coherence"] if inco else []):
-                yield dict(base, fn=fn, kind="op")
+            base = {"dA": d_a, "dB": d_b, "ua": ua, "ub": ub}
+            for nt in totals(tier):
+                for fn in INV_OP_FNS + (["concurrence", "entanglement_of_formation"] if (d_a, d_b) == (2, 2) else []) + (["l1_norm_coherence"] if inco else []):
+                    yield dict(base, fn=fn, kind="op", nt=nt)
             for fn in INV_VEC_FNS + (["l1_norm_coherence"] if inco else []):
                 yield dict(base, fn=fn, kind="vec")
 
@@ -638,7 +648,7 @@ def lu_check(case):
     n = d_a * d_b
     u = np.kron(cat.unitary(d_a, case["ua"]), cat.unitary(d_b, case["ub"]))
     if kind == "op":
-        items = [(key, None) for key in sub_keys(d_a, d_b, case["nts"])]
+        items = [(key, None) for key in sub_keys(d_a, d_b, (case["nt"],))]
     else:
         ks = list(range(1, min(d_a, d_b))) if fn == "sk_vector_norm" else [None]
         items = [(vk, k) for vk in GENERIC_VECS if vk in cat.kets(n) for k in ks]
@@ -716,6 +726,10 @@ def tri_dims(tier):
 
 
 def product_cases(tier, seed):
+    yield from _dedupe(_product_cases(tier))
+
+
+def _product_cases(tier):
     """Bipartite: one case = (state, input form), every dim form inside; tripartite: one case per (dims, structure, kets, form, dim form)."""
     nt = totals(tier)
     for d_a, d_b, parts, ua, ub in pure_states(tier):
@@ -893,8 +907,14 @@ def sk_matrix(d_a, d_b, key):
     return mixed(d_a, d_b, key)
 
 
+VEC_TOTALS = (6, 8)  # the enumerated vectors of Schmidt rank <= k always come from both partition totals
+
+
 def sk_cases(tier, seed):
-    nt = list(totals(tier))
+    yield from _dedupe(_sk_cases(tier))
+
+
+def _sk_cases(tier):
     seeds = (0, 1) if tier == "quick" else (0, 1, 42)
     for (d_a, d_b) in local_dims(tier):
         n = d_a * d_b
@@ -904,13 +924,13 @@ def sk_cases(tier, seed):
             for k in range(1, min(d_a, d_b) + 1):
                 for eff in efforts:
                     for sd in seeds:
-                        yield {"dA": d_a, "dB": d_b, "x": key, "k": k, "effort": eff, "seed": sd, "dim": "list", "nts": nt}
+                        yield {"dA": d_a, "dB": d_b, "x": key, "k": k, "effort": eff, "seed": sd, "dim": "list"}
                 for df in dimforms_for(d_a, d_b)[1:]:  # the other dim forms (omitted, int)
-                    yield {"dA": d_a, "dB": d_b, "x": key, "k": k, "effort": 0, "seed": 0, "dim": df, "nts": nt}
+                    yield {"dA": d_a, "dB": d_b, "x": key, "k": k, "effort": 0, "seed": 0, "dim": df}
     if tier == "thorough":
         for (d_a, d_b) in ((2, 4), (4, 2)):
             for key in (f"gd:0:{d_a * d_b}", "mix:0:8"):
-                yield {"dA": d_a, "dB": d_b, "x": key, "k": 1, "effort": 2, "seed": 0, "dim": "list", "nts": nt}
+                yield {"dA": d_a, "dB": d_b, "x": key, "k": 1, "effort": 2, "seed": 0, "dim": "list"}
 
 
 @lru_cache(maxsize=64)
@@ -987,7 +1007,7 @@ def sk_check(case):
     if lo > opn + eps:
         return viol(f"lower bound {lo:.9g} exceeds the operator norm {opn:.9g}", site="sk_operator_norm:lower_vs_opnorm", observed=lo, expected=opn)
     # every enumerated vector of Schmidt rank <= k
-    vs = rank_le_k_vectors(d_a, d_b, k, tuple(case["nts"]))
+    vs = rank_le_k_vectors(d_a, d_b, k, VEC_TOTALS)
     vals = np.abs(np.sum(vs.conj() * (x @ vs), axis=0))
     best = float(vals.max())
     for w in adaptive_vectors(x, d_a, d_b, k):
